@@ -115,6 +115,10 @@ pub fn gen(rng: &mut Rng, tier: Tier) -> Scn {
         };
         s.ops.push(TimedOp { when, op: Op::SetComplete });
     }
+    // publications stamped with a clock ahead of the polling clock
+    if rng.chance(0.06) {
+        s.spec.publish_ahead_us = *rng.pick(&[1_000u64, 500_000, 2_000_000]);
+    }
     // max_transfer_count = 0 (the object is still transmitted once): it must be announced like any other
     if rng.chance(0.06) {
         let i = rng.below(s.objects.len() as u64) as usize;
